@@ -51,6 +51,7 @@ type c18V2Runner struct{ p *c18Probe }
 
 func (r c18V2Runner) CheckUpkeep(context.Context, bool, ...v2.UpkeepKey) ([]v2.UpkeepResult, error) {
 	r.p.hit(c18SiteV2Check)
+	r.p.returned(c18SiteV2Check)
 	return nil, nil
 }
 
@@ -105,12 +106,15 @@ func newC18V2Sys(t testing.TB, in c18Input) *c18Sys {
 	cf := &v2coord.CoordinatorFactory{Logger: quietLogger, Encoder: c18V2CoordEnc{p: pr}, Logs: &c18V2Logs{p: pr}, CacheClean: 30 * time.Second}
 	of := &polling.PollingObserverFactory{Logger: quietLogger, Source: &c18V2Source{p: pr}, Heads: heads, Runner: c18V2Runner{p: pr}, Encoder: c18V2Enc{p: pr}}
 	fac := v2.NewReportingPluginFactory(c18V2Enc{p: pr}, c18V2Runner{p: pr}, cf, of, quietLogger)
-	p, _, err := fac.NewReportingPlugin(context.Background(), ocr2types.ReportingPluginConfig{N: 4, F: 1, OffchainConfig: []byte(`{}`)})
-	if err != nil {
-		t.Fatalf("v2 NewReportingPlugin: %v", err)
-	}
 	go heads.feed()
-	return &c18Sys{probe: pr, close: p.Close, subs: func() int { return 0 }, stopEnv: func() { close(heads.quit) },
+	closeFn, first := c18Build(in, pr, func(cfg string) func() error {
+		p, _, err := fac.NewReportingPlugin(context.Background(), ocr2types.ReportingPluginConfig{N: 4, F: 1, OffchainConfig: []byte(cfg)})
+		if err != nil {
+			t.Fatalf("v2 NewReportingPlugin: %v", err)
+		}
+		return p.Close
+	})
+	return &c18Sys{probe: pr, close: closeFn, firstClose: first, progressSite: c18SiteV2Check, subs: func() int { return 0 }, stopEnv: func() { close(heads.quit) },
 		sites:   c18SitesV2,
 		flowRep: map[string]string{"coordinator": c18SiteV2Perform, "observer": c18SiteV2Source},
 		flowOf: map[string]string{c18SiteV2Perform: "coordinator", c18SiteV2Stale: "coordinator", c18SiteV2CoordEnc: "coordinator",
